@@ -177,6 +177,25 @@ where
         self.pmf.as_ref().len()
     }
 
+    /// Converts a cumulative (sum of a prefix of `self.pmf`) to fixed point arithmetic,
+    /// excluding the contribution of the leakiness (i.e., one per preceding symbol).
+    ///
+    /// Rounding errors in the floating point arithmetic (or a `normalization` that is
+    /// smaller than the actual sum) must not push the result beyond the weight that can be
+    /// distributed freely, or else trailing symbols would end up with zero probability (or
+    /// the cumulative distribution function would wrap around).
+    #[inline(always)]
+    fn scaled_cumulative(&self, cumulative_float: F) -> Probability
+    where
+        F: AsPrimitive<Probability>,
+        usize: AsPrimitive<Probability>,
+    {
+        let free_weight =
+            wrapping_pow2::<Probability>(PRECISION).wrapping_sub(&self.pmf.as_ref().len().as_());
+        let scaled_cumulative: Probability = (cumulative_float * self.scale).as_();
+        scaled_cumulative.min(free_weight)
+    }
+
     /// Makes a very cheap shallow copy of the model that can be used much like a shared
     /// reference.
     ///
@@ -236,7 +255,7 @@ where
         // SAFETY: when we initialized `probability_float`, we checked if `symbol` is out of bounds.
         let left_side = unsafe { pmf.get_unchecked(..symbol) };
         let left_cumulative_float = left_side.iter().copied().sum::<F>();
-        let left_cumulative = (left_cumulative_float * self.scale).as_() + symbol.as_();
+        let left_cumulative = self.scaled_cumulative(left_cumulative_float) + symbol.as_();
 
         // It may seem easier to calculate `probability` directly from `probability_float` but
         // this could pick up different rounding errors, breaking guarantees of `EncoderModel`.
@@ -246,7 +265,7 @@ where
             // lead to an inaccessible last quantile due to rounding errors.
             wrapping_pow2(PRECISION)
         } else {
-            (right_cumulative_float * self.scale).as_() + symbol.as_() + Probability::one()
+            self.scaled_cumulative(right_cumulative_float) + symbol.as_() + Probability::one()
         };
         let probability = right_cumulative
             .wrapping_sub(&left_cumulative)
@@ -300,10 +319,11 @@ where
         // Then search for the correct `symbol` using the same float-to-int conversions as in
         // `EncoderModel::left_cumulative_and_probability`.
         let mut left_cumulative =
-            (left_cumulative_float * self.scale).as_() + next_symbol.wrapping_sub(1).as_();
+            self.scaled_cumulative(left_cumulative_float) + next_symbol.wrapping_sub(1).as_();
 
         for &next_probability in &mut iter {
-            let right_cumulative = (right_cumulative_float * self.scale).as_() + next_symbol.as_();
+            let right_cumulative =
+                self.scaled_cumulative(right_cumulative_float) + next_symbol.as_();
             if right_cumulative > quantile {
                 let probability = right_cumulative
                     .wrapping_sub(&left_cumulative)
